@@ -27,7 +27,7 @@ pub fn ctor() -> BoxedStrategy<Ctor> {
 }
 
 pub fn finish() -> BoxedStrategy<Finish> {
-    prop_oneof![Just(Finish::Drop), Just(Finish::FinalizeDrop), Just(Finish::WriteShapes)].boxed()
+    prop_oneof![Just(Finish::Drop), Just(Finish::FinalizeDrop), Just(Finish::WriteShapes), Just(Finish::Mixed)].boxed()
 }
 
 pub struct FileGen {
@@ -70,7 +70,7 @@ pub fn file_case(g: FileGen) -> BoxedStrategy<FileCase> {
 /// "more than 64 points in a part" are only reachable with sizes the skewed generator rarely draws.
 pub fn large_file_case(nan_zm: bool) -> BoxedStrategy<FileCase> {
     let fins = prop_oneof![2 => Just(0u32), 1 => any::<u32>()];
-    (gen::ty13(), ctor(), finish(), fins, 0u8..12, gen::profile_mix())
+    (gen::ty13(), ctor(), finish(), fins, 0u8..12, if nan_zm { gen::profile_mix_nan() } else { gen::profile_mix() })
         .prop_flat_map(move |(ty, ctor, fin, mid_fins, mode, prof)| {
             // mode 0-1: many records of tiny shapes; 2-3: few shapes with many parts; 4-5: few shapes with many points;
             // 6: one shape with 1000-1100 points in a part; 7: one shape with 500-530 parts; 8-9: 4097-4300 points in a part
@@ -113,7 +113,7 @@ pub fn large_file_case(nan_zm: bool) -> BoxedStrategy<FileCase> {
 /// are far larger than the 8 KiB buffers of BufWriter / BufReader, so record headers, record bodies and
 /// index entries fall on every alignment relative to the buffer edges.
 pub fn bufio_file_case() -> BoxedStrategy<FileCase> {
-    (gen::ty13(), ctor(), finish(), prop_oneof![Just(0u32), any::<u32>()], gen::profile_mix())
+    (gen::ty13(), ctor(), finish(), prop_oneof![Just(0u32), any::<u32>()], gen::profile_mix_nan())
         .prop_flat_map(|(ty, ctor, fin, mid_fins, prof)| {
             let cfg = gen::GenCfg::new(prof, true, 2, 3);
             // one file in eight holds more than 65536 records
